@@ -56,8 +56,44 @@ def scan_forbidden() -> list[str]:
     return hits
 
 
-def lean_build(log: list[str]) -> bool:
-    """regenerate ConstTie.lean from /repo/src, then `lake build` (file-locked). True iff it built."""
+# properties whose theorems rest on the wire constants / formats extracted into ConstTie.lean
+CONST_TIE = {"SomeipModel.ConstTie": {"C01", "C02", "C03", "C09", "C16", "C18", "C20"}}
+
+
+def _module_index() -> dict[str, str]:
+    """short theorem name -> Lean module that states it (names of registered theorems are unique)"""
+    idx: dict[str, str] = {}
+    base = os.path.join(LEAN, "SomeipModel")
+    for root, _dirs, files in os.walk(base):
+        for f in files:
+            if not f.endswith(".lean"):
+                continue
+            path = os.path.join(root, f)
+            mod = "SomeipModel." + os.path.relpath(path, base)[:-5].replace(os.sep, ".")
+            with open(path) as fh:
+                for m in re.finditer(r"^theorem\s+([^\s(:{\[]+)", fh.read(), re.M):
+                    idx.setdefault(m.group(1).split(".")[-1], mod)
+    return idx
+
+
+def modules_for(pid: str) -> list[str]:
+    """the proof obligations of one property: the modules that state its registered theorems (they import what they
+    need) plus the generated tie modules it rests on.  A failure anywhere else does not concern this property."""
+    idx = _module_index()
+    mods = {idx[t.split(".")[-1]] for t in theorems_for(pid) if t.split(".")[-1] in idx}
+    mods |= {m for m, pids in CONST_TIE.items() if pid in pids}
+    return sorted(mods)
+
+
+def _lake(args: list[str]):
+    p = subprocess.run(["lake", "build"] + args, cwd=LEAN, stdout=subprocess.PIPE, stderr=subprocess.STDOUT, text=True)
+    out = "\n".join(l for l in p.stdout.split("\n") if not l.startswith("trace:"))
+    return p.returncode, out
+
+
+def lean_build(log: list[str], pid: str | None = None) -> tuple[bool, list[str]]:
+    """regenerate ConstTie.lean and GenTie.lean from /repo/src, then build (file-locked) the driver and the modules that
+    carry the property's obligations (everything when pid is None).  Returns (all built, modules that were built)."""
     os.makedirs(os.path.join(LEAN, ".lake"), exist_ok=True)
     with open(os.path.join(LEAN, ".lake", "verif.lock"), "w") as lk:
         fcntl.flock(lk, fcntl.LOCK_EX)
@@ -67,28 +103,46 @@ def lean_build(log: list[str]) -> bool:
             extract_consts.write_consttie(log)
         except Exception as exc:  # extraction problems are recorded, never fatal
             log.append(f"const extraction failed: {exc!r}")
-        p = subprocess.run(
-            ["lake", "build"], cwd=LEAN, stdout=subprocess.PIPE, stderr=subprocess.STDOUT, text=True
-        )
-        out = "\n".join(l for l in p.stdout.split("\n") if not l.startswith("trace:"))
-        if p.returncode != 0:
-            log.append("lake build FAILED:\n" + out[-6000:])
-            # the driver only depends on the model files; try to build it alone
-            q = subprocess.run(
-                ["lake", "build", "driver"], cwd=LEAN, stdout=subprocess.PIPE, stderr=subprocess.STDOUT, text=True
-            )
-            if q.returncode != 0 and not os.path.exists(DRIVER):
-                raise Infra("Lean driver does not build:\n" + q.stdout[-3000:])
-            return False
-        return True
+        try:
+            from harness import pytolean
+
+            text, status = pytolean.generate()
+            gpath = os.path.join(LEAN, "SomeipModel", "GenTie.lean")
+            if not os.path.exists(gpath) or open(gpath).read() != text:
+                with open(gpath, "w") as f:
+                    f.write(text)
+            for name, st in status.items():
+                if st != "translated":
+                    log.append(f"static tie: {name} {st}")
+        except Exception as exc:  # noqa: BLE001
+            log.append(f"translation failed: {exc!r}")
+        rc, out = _lake(["driver"])
+        if rc != 0 and not os.path.exists(DRIVER):
+            raise Infra("Lean driver does not build:\n" + out[-3000:])
+        if rc != 0:
+            log.append("lake build driver FAILED:\n" + out[-3000:])
+        mods = modules_for(pid) if pid else ["SomeipModel"]
+        rc2, out2 = _lake(mods)
+        if rc2 == 0:
+            return rc == 0, mods
+        log.append("lake build FAILED:\n" + out2[-6000:])
+        good = []
+        for m in mods:
+            r, _o = _lake([m])
+            if r == 0:
+                good.append(m)
+            else:
+                log.append(f"module does not build: {m}")
+        return False, good
 
 
-def audit(theorems: list[str], log: list[str]) -> dict[str, list[str] | None]:
+def audit(theorems: list[str], log: list[str], modules: list[str] | None = None) -> dict[str, list[str] | None]:
     """#print axioms for each theorem; value None = theorem missing / does not check."""
     res: dict[str, list[str] | None] = {}
     if not theorems:
         return res
-    src = "import SomeipModel\n" + "".join(f"#print axioms {t}\n" for t in theorems)
+    imports = "".join(f"import {m}\n" for m in (modules if modules is not None else ["SomeipModel"]))
+    src = imports + "".join(f"#print axioms {t}\n" for t in theorems)
     path = os.path.join(LEAN, ".lake", f"audit_{os.getpid()}.lean")
     with open(path, "w") as f:
         f.write(src)
@@ -225,16 +279,50 @@ def jsonable(x):
         return repr(x)
 
 
+def replay(pid: str, module, data: dict) -> int:
+    """Re-run, on /repo's CURRENT tree, exactly the run that produced a replay file: every random choice of a run derives
+    from the one PRNG state fixed by (property, run seed, tier, scale), so the same cases are generated again.  Exit 1 and a
+    VIOLATION line if the recorded violation (same signature; for a broken correspondence: any disagreement) happens again,
+    exit 0 if it does not."""
+    run = data.get("run") or {"seed": data.get("seed", 0), "scale": 1.0}
+    tier = data.get("tier", "quick")
+    log: list[str] = []
+    lean_build(log, pid)   # the replay re-runs the cases; a broken obligation is reported by the check itself
+    ctx = Ctx(pid, tier, int(run["seed"]), scale=float(run.get("scale", 1.0)))
+    rep = module.run(ctx)
+    sig = data.get("signature")
+    if sig is None:
+        print(f"[{pid}] replay of a broken obligation / correspondence record: {data.get('no_longer_checks')}")
+        if rep.disagreements:
+            d = rep.disagreements[0]
+            print(f"  still diverging: {d['op'][:200]}\n    model: {str(d['model'])[:300]}\n    impl:  {str(d['impl'])[:300]}")
+            print(f"VIOLATION property={pid} replay=- no-failing-input-found")
+            return 1
+        print("  correspondence agrees on the current tree: not reproduced")
+        return 0
+    hits = [v for v in rep.violations if v["signature"] == sig]
+    if not hits:
+        print(f"[{pid}] {sig}: not reproduced on the current tree ({rep.evaluations} cases re-run with run seed {run['seed']})")
+        return 0
+    same = [v for v in hits if jsonable(v["case"]) == data.get("case")]
+    v = (same or hits)[0]
+    print(f"[{pid}] {sig}: REPRODUCED ({'the identical case' if same else 'same signature, another case of the run'})")
+    print("  " + v["what"][:1000])
+    print("  case: " + json.dumps(jsonable(v["case"]), default=repr)[:4000])
+    print(f"VIOLATION property={pid} replay={data.get('_path', '-')}")
+    return 1
+
+
 def check(pid: str, tier: str, seed: int, module, level_text: str) -> int:
     t0 = time.time()
     log: list[str] = []
     os.makedirs(EVIDENCE, exist_ok=True)
     ev_path = os.path.join(EVIDENCE, f"{pid}.json")
     # --- 1. proof side
-    built = lean_build(log)
+    built, built_mods = lean_build(log, pid)
     forbidden = scan_forbidden()
     thms = theorems_for(pid)
-    axioms = audit(thms, log) if built else {t: None for t in thms}
+    axioms = audit(thms, log, built_mods)
     bad_thms = [t for t, a in axioms.items() if a is None or not set(a) <= ALLOWED_AXIOMS]
     proof_ok = built and not forbidden and not bad_thms and bool(thms)
     # --- 2. correspondence + oracle
@@ -243,10 +331,12 @@ def check(pid: str, tier: str, seed: int, module, level_text: str) -> int:
     known = [k for k in load_known() if k.get("property") == pid and k.get("kind") == "known"]
     known_sigs = {k["signature"]: k for k in known}
     unknown = [v for v in rep.violations if v["signature"] not in known_sigs]
+    run_params = {"seed": seed, "scale": 1.0}
     searched = 0
     broken = []
     if not built:
-        broken.append("lean-build")
+        failed = [m for m in modules_for(pid) if m not in built_mods]
+        broken.append("lean-build:" + (",".join(failed) or "driver"))
     if forbidden:
         broken.append("forbidden-construct:" + forbidden[0])
     for t in bad_thms:
@@ -265,6 +355,8 @@ def check(pid: str, tier: str, seed: int, module, level_text: str) -> int:
             searched += srep.evaluations
             rep.dist.update({"search:" + a: b for a, b in srep.dist.items() if a.startswith("VIOLATION")})
             unknown = [v for v in srep.violations if v["signature"] not in known_sigs]
+            if unknown:
+                run_params = {"seed": seed * 1000 + k, "scale": 4.0}
             if not rep.disagreements and srep.disagreements:
                 rep.disagreements = srep.disagreements
     # --- 4. verdict
@@ -284,7 +376,7 @@ def check(pid: str, tier: str, seed: int, module, level_text: str) -> int:
             tag = re.sub(r"[^A-Za-z0-9_.-]+", "_", sig)[:60]
             path = write_replay(pid, tag, {"property": pid, "signature": sig, "what": v["what"],
                                            "case": jsonable(v["case"]), "seed": seed, "tier": tier,
-                                           "broken_obligations": broken})
+                                           "run": run_params, "broken_obligations": broken})
             lines.append(f"VIOLATION property={pid} replay={path}")
             nviol += 1
         rc = 1
@@ -292,7 +384,7 @@ def check(pid: str, tier: str, seed: int, module, level_text: str) -> int:
         path = write_replay(pid, "unchecked", {
             "property": pid, "no_longer_checks": broken, "log": log,
             "first_disagreements": jsonable(rep.disagreements[:5]),
-            "axioms": axioms, "searched_cases": searched, "seed": seed, "tier": tier})
+            "axioms": axioms, "searched_cases": searched, "seed": seed, "tier": tier, "run": {"seed": seed, "scale": 1.0}})
         lines.append(f"VIOLATION property={pid} replay={path} no-failing-input-found")
         nviol = 1
         rc = 1
@@ -305,8 +397,8 @@ def check(pid: str, tier: str, seed: int, module, level_text: str) -> int:
         "level": "proof",
         "coverage": {
             "obligations": max(1, len(thms)),
-            "discharged": sum(1 for t in thms if t not in bad_thms) if built else 0,
-            "checker_cmd": "cd /verif/lean && lake build && lake env lean <#print axioms of theorems.json[%s]>" % pid,
+            "discharged": sum(1 for t in thms if t not in bad_thms),
+            "checker_cmd": "cd /verif/lean && lake build driver %s && lake env lean <#print axioms of theorems.json[%s]>" % (" ".join(modules_for(pid)), pid),
             "trusted_base": [
                 "Lean 4.33.0 kernel + elaborator",
                 "axioms used: " + ", ".join(sorted({a for v in axioms.values() if v for a in v})) if any(axioms.values()) else "axioms used: none",
